@@ -19,6 +19,12 @@ THEOREM_MODULES = ["Yarel.Props.C06", "Yarel.Props.SpecScoping", "Yarel.Props.Fn
 REQUIRED_THEOREMS = ["declare_variable_spec", "redeclaration_is_reported", "shadowing_is_allowed", "clash_test_matches_reference", "add_local_spec",
                      "mark_initialised_spec", "mark_last_initialised_spec", "declared_then_initialised_is_found", "emit_scope_end_spec", "captured_slots_are_closed", "scope_end_matches_reference", "resolve_local_tie", "resolve_local_innermost", "add_upvalue_spec", "add_upvalue_tie", "resolveLocal_is_innermost_preceding", "pushLocal_fresh", "makeClosure_captures_cells", "write_then_read_shared",
                      "write_does_not_disturb_other", "truncateEnv_keeps_cells", "open_sorted", "capture_shares", "close_exact", "refines_cells", "refines_cells_run"]
+# scopes and declarations as compiled (Props/FnsTie/Statements, bodies as read on this run): a scope entry raises the depth, leaving lowers it and
+# THEN discards the deeper locals; `var x = e;` compiles the initialiser before the variable is defined; a definition inside a scope only
+# marks the local initialised, at top level it defines a global; break / continue discard the loop's inner locals before jumping
+THEOREM_MODULES.append("Yarel.Props.FnsTie.Statements")
+REQUIRED_THEOREMS += ["begin_scope_skeleton", "end_scope_skeleton", "end_scope_underflow", "var_declaration_skeleton", "define_variable_skeleton",
+                      "break_discards_before_jumping"]
 LEVEL = "proof"
 ASSUMPTIONS = [
     "mechanism model Yarel/Model/Upvalues.lean transcribes capture_upvalue/close_upvalues (tie: replay of real capture/close events)",
